@@ -98,6 +98,7 @@ func init() {
 	}, func(r *Run) {
 		w := r.W
 		rulePQ(r, "C14")
+		ruleSubspaceKernel(r, "C14.KERNEL")
 		n := ruleArgmins(r, "C14.ARGMIN", annEncodeFns(w))
 		if n < 2 {
 			r.add("C14.ARGMIN", "argmin:floor", "-", "fewer than 2 encode argmin loops", Floor)
@@ -149,6 +150,7 @@ func init() {
 			ruleIVFAssign(r, "C15", k)
 		}
 		rulePQ(r, "C15")
+		ruleSubspaceKernel(r, "C15.KERNEL")
 		fns := append(annEncodeFns(w), w.Fn("FindNearestCentroidIndex"), w.Fn("kmeansInternal"))
 		n := ruleArgmins(r, "C15.ARGMIN", fns)
 		if n < 4 {
